@@ -133,6 +133,29 @@ pub fn suite_encode(out: &mut Out, tier: &str, rng: &mut Rng) {
         let m = control_of_size(total, rng);
         out.emit(json!({"op": "encode", "kind": "msg", "v": m, "prefix": [], "wr": "vec"}));
     }
+    // writers that already hold about 64 KiB / 128 KiB: absolute positions pass 2^16 while the value is small
+    let big_prefixes: &[usize] = if tier == "thorough" { &[65500, 65523, 65524, 65530, 65535, 65536, 70000, 131060, 131072] } else { &[65524, 65530, 70000] };
+    for (i, &np) in big_prefixes.iter().enumerate() {
+        let prefix = rng.bytes(np);
+        let (kind, v) = match i % 3 {
+            0 => ("msg", gen_control(rng, 2, 10)),
+            1 => ("avp", gen_avp(rng, 20)),
+            _ => ("msg", gen_data(rng, 10)),
+        };
+        out.emit(json!({"op": "encode", "kind": kind, "v": v, "prefix": bytes_json(&prefix), "wr": if i % 2 == 0 { "vec" } else { "mon" }}));
+    }
+    // one writer receiving enough messages to pass 64 KiB
+    {
+        let k = if tier == "thorough" { 160 } else { 75 };
+        let items: Vec<Value> = (0..k)
+            .map(|_| {
+                let m = json!({"k": "Control", "length": 0, "tunnel_id": rng.u16(), "session_id": 1, "ns": 2, "nr": 3,
+                               "avps": [gen_message_type(rng), host(900, rng)]});
+                json!({"kind": "msg", "v": m})
+            })
+            .collect();
+        out.emit(json!({"op": "encode_seq", "items": items}));
+    }
     let n = counts(tier, 900, 40000);
     for i in 0..n {
         let (kind, v) = gen_any_value(rng);
